@@ -23,8 +23,6 @@ Definition bind {T U} (x : outcome T) (f : T -> outcome U) : outcome U :=
 Notation "'do' x <- e ; k" := (bind e (fun x => k)) (at level 200, x name, e at level 100, k at level 200).
 
 (* Go panic sites covered by the model *)
-Definition P_INDEX : Z := 1.          (* slice_validator.go:124 val.Index(i) out of range *)
-Definition P_FORMAT_ASSERT : Z := 2.  (* formats.go:90 val.(string) on a json.Number *)
 Definition P_BAD_REF : Z := 3.        (* schema.go:81 documented panic: reference cannot be resolved *)
 
 (* ------------------------------------------------------------------ names and messages *)
@@ -228,9 +226,28 @@ Fixpoint goval_depth (v : goval) : nat :=
 
 Definition deep_eq (a b : goval) : bool := deep_eq_fuel (S (goval_depth a)) a b.
 
+(* a structural code of a value, used where a message text embeds the value (fmt %v of an enum list) *)
+Fixpoint goval_code_fuel (fuel : nat) (v : goval) : list Z :=
+  match fuel with
+  | O => []
+  | S f =>
+      match v with
+      | VNil => [0]
+      | VBool b => [1; if b then 1 else 0]
+      | VStr s => [2; s]
+      | VFlt _ x => [3; x]
+      | VInt _ z => [4; z]
+      | VJnum lit _ _ => [5; lit]
+      | VArr _ l => [6; Z.of_nat (length l)] ++ flat_map (goval_code_fuel f) l
+      | VObj _ m => [7; Z.of_nat (length m)] ++ flat_map (fun kv => fst kv :: goval_code_fuel f (snd kv)) m
+      end
+  end.
+Definition goval_code (v : goval) : list Z := goval_code_fuel (S (goval_depth v)) v.
+
 (* validator.go:279-291: expectedValue.Type().ConvertibleTo(actualType) && DeepEqual(Convert(...), enumValue) *)
 Definition enum_match (d e : goval) : bool :=
   match d, e with
+  | VNil, VNil => true                                         (* actualType == nil && data == nil: member *)
   | _, VNil => false                                           (* reflect.TypeOf(enumValue) == nil: continue *)
   | VNil, _ => false                                           (* !expectedValue.IsValid() *)
   | VInt _ z, VFlt false y => n_eq N (n_of_int N z) y          (* integer -> float64 conversion *)
@@ -318,8 +335,8 @@ Definition format_validate (p : path) (s : schema) (d : goval) : outcome res :=
   match d with
   | VStr x =>
       if o_fmt_check OR (s_format s) x then Ok new_res
-      else Ok (r_add new_res [invalid_type p [s_format s] (-3)])
-  | _ => Panic P_FORMAT_ASSERT
+      else Ok (r_add new_res [invalid_type p [s_format s; -3] x])
+  | _ => Ok new_res                                             (* val.(string) not ok: nothing to say *)
   end.
 
 (* helpers.go:164-214 *)
@@ -394,7 +411,7 @@ Definition number_validate (p : path) (s : schema) (d : goval) : res :=
 Definition common_validate (p : path) (s : schema) (d : goval) : option res :=
   match s_enum s with
   | [] => None
-  | en => if existsb (enum_match d) en then None else Some (s_err (mkMsg C_ENUM p []))
+  | en => if existsb (enum_match d) en then None else Some (s_err (mkMsg C_ENUM p (flat_map goval_code en)))
   end.
 
 (* values.go:112-128 *)
@@ -433,19 +450,11 @@ Fixpoint slice_items_tuple (ss : list schema) (p : path) (sl : Z) (l : list gova
   | _, _ => Ok r
   end.
 
-(* slice_validator.go:122-125: for i := itemsSize; i < size-itemsSize+1; i++ { ... val.Index(i) ... } *)
-Fixpoint slice_additional (sa : schema) (p : path) (sl : Z) (all : list goval) (i bound : Z) (n : nat) (r : res)
-  : outcome res :=
-  match n with
-  | O => Ok r
-  | S n' =>
-      if i <? bound then
-        match nth_goval all (Z.to_nat i) with
-        | None => Panic P_INDEX
-        | Some v => do x <- rec sa (p ++ [SIdx i]) v;
-                    slice_additional sa p sl all (i + 1) bound n' (merge_for_slice r sl i x)
-        end
-      else Ok r
+(* slice_validator.go:121-126: for i := itemsSize; i < size; i++ *)
+Fixpoint slice_additional (sa : schema) (p : path) (sl : Z) (rest : list goval) (i : Z) (r : res) : outcome res :=
+  match rest with
+  | [] => Ok r
+  | v :: t => do x <- rec sa (p ++ [SIdx i]) v; slice_additional sa p sl t (i + 1) (merge_for_slice r sl i x)
   end.
 
 Definition slice_validate (p : path) (s : schema) (d : goval) : outcome res :=
@@ -464,8 +473,9 @@ Definition slice_validate (p : path) (s : schema) (d : goval) : outcome res :=
                     if items_size <? size then
                       let r2' := if (0 <? items_size) && negb allows then r_add r2 [mkMsg C_NO_ADD_ITEMS [] []] else r2 in
                       match sa with
-                      | Some sa => slice_additional sa p sl l items_size (size - items_size + 1)
-                                                    (S (length l)) r2'
+                      | Some sa => if 0 <? items_size
+                                   then slice_additional sa p sl (skipn (length tuple) l) items_size r2'
+                                   else Ok r2'
                       | None => Ok r2'
                       end
                     else Ok r2
